@@ -113,6 +113,14 @@ def run : State → Bytes → Bytes → Option (Bytes × Nat)
 that ends it. -/
 def afterOpen (input : Bytes) : Option (Bytes × Nat) := run .commentStart [] input
 
+/-- Markup declaration open state: `<!` followed by `--` switches to the comment start state.
+`some (data, n)`: the input starts with a comment whose token has that data and which spans exactly
+the first `n` bytes of the input. -/
+def commentAt (input : Bytes) : Option (Bytes × Nat) :=
+  match input with
+  | 60 :: 33 :: 45 :: 45 :: rest => (afterOpen rest).map fun (d, n) => (d, n + 4)
+  | _ => none
+
 end CommentEnd
 
 /-! ## WHATWG tag-name / attribute states -/
